@@ -41,6 +41,28 @@ def diff_runs(a, b):
     return runs
 
 
+def wipe_pattern(data, addr, s, e):
+    """memWipe fills with a counter whose step depends on the address of each octet (17 + (address & 15)) and whose start
+    depends on the addresses of the blocks wiped before; so two wiped blocks can differ between the twins when some buffer
+    sits at another address.  A run that follows that recurrence at the block's own address is wipe filler, not data
+    (chance of a data run of r octets passing: 2^-8(r-1))."""
+    if e - s < 2:
+        return False
+    for i in range(s, e - 1):
+        if (data[i + 1] - data[i]) & 0xFF != (17 + ((addr + i + 1) & 15)) & 0xFF:
+            return False
+    return True
+
+
+def twins(lib, w, call, fail_at):
+    """both twins from one memory image; returns [resA, resB] or (None, status)"""
+    rr = walib.in_twins([lambda k=k: exec_variant(lib, w, call, k, fail_at) for k in (0, 1)])
+    for st, res in rr:
+        if st != "ok":
+            return None, (st, res)
+    return [rr[0][1], rr[1][1]], None
+
+
 def exec_variant(lib, w, call, k, fail_at):
     v = call.v[k]
     ret, info = w.run(call.fn, v.args, fail_at)
@@ -59,7 +81,7 @@ def judge(ctx, call, res, fail_at, reported, desc):
         for nd in v.needles:
             needles.update(windows(nd))
         pubs = b"\x00".join(v.pub + res[k]["outs"])
-        for i, (how, data) in enumerate(res[k]["info"]["snaps"] + res[k]["info"].get("leaked", [])):
+        for i, (how, data, addr) in enumerate(res[k]["info"]["snaps"] + res[k]["info"].get("leaked", [])):
             for wnd in windows(data):
                 if wnd in needles and wnd not in pubs and len(set(wnd)) > 2:
                     key = "%s:secret-in-released-block:%s:%s" % (name.split(":")[0], HOW[how], exitc) if how < 2 else \
@@ -78,7 +100,7 @@ def judge(ctx, call, res, fail_at, reported, desc):
     if len(sa) != len(sb) or any(len(x[1]) != len(y[1]) for x, y in zip(sa, sb)):
         ctx.classes["allocation-pattern-differs-between-twins"] += 1
         return
-    for i, ((ha, da), (hb, db)) in enumerate(zip(sa, sb)):
+    for i, ((ha, da, aa), (hb, db, ab)) in enumerate(zip(sa, sb)):
         if da == db:
             continue
         pubA = b"\x00".join(call.v[0].pub + res[0]["outs"])
@@ -87,6 +109,9 @@ def judge(ctx, call, res, fail_at, reported, desc):
             if e - s < 4:
                 continue
             if da[s:e] in pubA and db[s:e] in pubB:
+                continue
+            if wipe_pattern(da, aa, s, e) and wipe_pattern(db, ab, s, e):
+                ctx.classes["differing-run-is-wipe-pattern"] += 1
                 continue
             key = "%s:released-block-depends-on-secret:%s:%s" % (name.split(":")[0], HOW[ha], exitc) if ha < 2 else \
                   "%s:unreleased-block-depends-on-secret:%s" % (name.split(":")[0], exitc)
@@ -115,15 +140,10 @@ def unit_twins(ctx):
                 r = random.Random(s)
                 call = sc.BUILDERS[name](lib, r, size)
                 # success / authentication-failure exit, twins in forked children
-                results = []
                 nalloc = 0
-                for k in (0, 1):
-                    st, res = walib.in_child(lambda k=k: exec_variant(lib, w, call, k, 0))
-                    if st != "ok":
-                        ctx.violation("%s:crash:%s" % (name.split(":")[0], st), "child crashed during %s" % name, dict(desc, status=str(res)))
-                        results = None
-                        break
-                    results.append(res)
+                results, bad = twins(lib, w, call, 0)
+                if results is None:
+                    ctx.violation("%s:crash:%s" % (name.split(":")[0], bad[0]), "child crashed during %s" % name, dict(desc, status=str(bad[1])))
                 if results:
                     ok = results[0]["ret"] == ERR_OK
                     if ok != call.expect_ok:
@@ -149,13 +169,7 @@ def unit_twins(ctx):
                                 pk = base[k][i]
                                 saved[k] = lib.rd(pk, lib.sizes[pk])
                                 lib.wr(pk, bytes([pat]) * lib.sizes[pk])
-                            rr = []
-                            for k in (0, 1):
-                                st, res = walib.in_child(lambda k=k: exec_variant(lib, w, call, k, 0))
-                                if st != "ok":
-                                    rr = None
-                                    break
-                                rr.append(res)
+                            rr, _bad = twins(lib, w, call, 0)
                             for k in (0, 1):
                                 lib.wr(base[k][i], saved[k])
                             if rr and rr[0]["ret"] != ERR_OK and rr[0]["info"]["nalloc"]:
@@ -168,13 +182,7 @@ def unit_twins(ctx):
                                 ctx.classes["released-blocks-inspected"] += len(rr[0]["info"]["snaps"]) + len(rr[1]["info"]["snaps"])
                 # every allocation-failure exit
                 for fail_at in range(1, min(nalloc, P.get("maxfail", 12)) + 1):
-                    results = []
-                    for k in (0, 1):
-                        st, res = walib.in_child(lambda k=k: exec_variant(lib, w, call, k, fail_at))
-                        if st != "ok":
-                            results = None   # a crash on allocation failure is C09's finding
-                            break
-                        results.append(res)
+                    results, _bad = twins(lib, w, call, fail_at)   # a crash on allocation failure is C09's finding
                     if results and results[0]["info"]["failed"]:
                         judge(ctx, call, results, fail_at, reported, dict(desc, fail_at=fail_at))
                         exits.setdefault(name, set()).add("alloc-fail#%d" % fail_at)
